@@ -301,6 +301,13 @@ pub fn bx_partial_ord() {
         vassert!((x >= y) == (v >= w), "NEVER: [C17] Box `>=` differs from the value's");
         vassert!((x == y) == (v == w) && (x != y) == (v != w), "NEVER: [C17] Box equality differs from the value's");
         vassert!(x.partial_cmp(&y) == v.partial_cmp(&w), "NEVER: [C17] Box partial_cmp differs from the value's");
+        // a box compared with ITSELF (aliasing operands) must still ask the value: NaN != NaN
+        #[allow(clippy::eq_op)]
+        {
+            vassert!((x == x) == (v == v) && (x != x) == (v != v), "NEVER: [C17] Box compared with itself: equality differs from the value's (identity shortcut?)");
+            vassert!((x <= x) == (v <= v) && (x < x) == (v < v), "NEVER: [C17] Box compared with itself: ordering differs from the value's");
+            vassert!(x.partial_cmp(&x) == v.partial_cmp(&v), "NEVER: [C17] Box compared with itself: partial_cmp differs from the value's");
+        }
         kani::cover!(v != v, "REACH: incomparable payload (NaN)");
     }
 }
